@@ -294,13 +294,15 @@ def rule_dataset(ctx: Ctx) -> None:
         if p.exit != ("return",):
             continue
         want_ids = "[frame_id]" if one else "list(frame_id)" if many else None
-        got_ids = {re.search(r"frame_ids=(.*?),load_raw_data=", S(e.value)).group(1) for e2 in p.effects if e2.kind == "loop" for bp in e2.body for e in bp.effects if e.kind == "aug" and "frame_ids=" in S(e.value)}
+        texts = [S(e.value) for e2 in p.effects if e2.kind == "loop" for bp in e2.body for e in bp.effects if e.kind == "aug" and e.value is not None]
+        texts += [S(e.args[0]) for e2 in p.effects if e2.kind == "loop" for bp in e2.body for e in bp.effects if e.kind == "call" and e.name == "extend" and e.args]
+        got_ids = {m.group(1) for t in texts for m in [re.search(r"frame_ids=(.*?),load_raw_data=", t)] if m}
         ctx.check(want_ids is not None and got_ids == {want_ids}, "C16-one-frame-per-sample", "load_all_datasets", f"frame-id:{want_ids}", f"the requested frame id reaches the loader as {sorted(got_ids)}; expected {want_ids}", fi=fa)
         lp = [e for e in p.effects if e.kind == "loop"]
         ctx.require(len(lp) == 1 and S(lp[0].text) == "dataset_paths", "load_all_datasets: loop over dataset_paths not found")
         dp = U(lp[0].node.target)
         for bp in lp[0].body:
-            aug = [(e.recv, e.name, S(e.value)) for e in bp.effects if e.kind == "aug"]
+            aug = [(e.recv, e.name, S(e.value)) for e in bp.effects if e.kind == "aug"] + [(S(e.recv), "Add", S(e.args[0])) for e in bp.effects if e.kind == "call" and e.name == "extend" and e.args]
             want = [("all_datasets", "Add", f"_load_dataset(dataset_path={dp},evaluation_task=evaluation_task,label_converter=label_converter,frame_ids=frame_ids,load_raw_data=load_raw_data)")]
             ok = len(aug) == 1 and aug[0][:2] == want[0][:2] and aug[0][2].startswith(f"_load_dataset(dataset_path={dp},evaluation_task=evaluation_task,label_converter=label_converter,frame_ids=")
             ctx.check(ok, "C16-one-frame-per-sample", "load_all_datasets", f"concat:{len(p.conds)}", f"per dataset the function does {aug}; expected all_datasets += _load_dataset(...)", fi=fa)
